@@ -117,6 +117,8 @@ pub enum ReqOutcome {
     WriterRefused(String),
     NoProof,
     Accepted,
+    /// an injected storage fault made the replica-side call return an error (C10)
+    Faulted(String),
 }
 
 pub struct RSim {
@@ -140,6 +142,9 @@ pub struct RSim {
     pub r_reopened_with_unflushed: bool,
     pub pages_held: std::collections::BTreeSet<u64>,
     r_jpos: usize,
+    /// skip the model comparisons after replica calls (fault runs must issue the same
+    /// storage operations as their dry run)
+    pub quiet: bool,
     /// last proof created (for C04/C13 users)
     pub last_proof: Option<Proof>,
 }
@@ -185,6 +190,7 @@ impl RSim {
             r_reopened_with_unflushed: false,
             pages_held: Default::default(),
             r_jpos: 0,
+            quiet: false,
             last_proof: None,
         })
     }
@@ -280,6 +286,7 @@ impl RSim {
                 let r = self.replica();
                 let nodes = match catch(|| block_on(r.missing_nodes(i))) {
                     Ok(Ok(n)) => n,
+                    Ok(Err(_)) if self.rdisk.fault_hit() => return Ok(Err("storage fault")),
                     Ok(Err(e)) => return Err(fail_at(step, format!("missing-nodes-error:{}", err_kind(&e)), format!("replica.missing_nodes({i}) failed: {e}"))),
                     Err(p) => return Err(panic_failure(&format!("session step {step}: replica.missing_nodes({i})"), &p)),
                 };
@@ -303,6 +310,7 @@ impl RSim {
                 let r = self.replica();
                 let nodes = match catch(|| block_on(r.missing_nodes_from_merkle_tree_index(j))) {
                     Ok(Ok(n)) => n,
+                    Ok(Err(_)) if self.rdisk.fault_hit() => return Ok(Err("storage fault")),
                     Ok(Err(e)) => {
                         return Err(fail_at(step, format!("missing-nodes-error:{}", err_kind(&e)), format!("replica.missing_nodes_from_merkle_tree_index({j}) failed: {e}")))
                     }
@@ -345,6 +353,7 @@ impl RSim {
         let step = self.step;
         let c = match self.resolve(req)? {
             Ok(c) => c,
+            Err("storage fault") => return Ok(ReqOutcome::Faulted("missing_nodes".into())),
             Err(why) => {
                 local.class(&format!("request_skipped:{why}"));
                 return Ok(ReqOutcome::Skipped(why));
@@ -403,6 +412,12 @@ impl RSim {
         let r = self.replica();
         let res = catch(|| block_on(r.verify_and_apply_proof(&proof)))
             .map_err(|p| panic_failure(&format!("session step {step}: replica.verify_and_apply_proof (request {c:?})"), &p))?;
+        if self.rdisk.fault_hit() {
+            return match res {
+                Err(_) => Ok(ReqOutcome::Faulted("verify_and_apply_proof".into())),
+                Ok(v) => Err(fail_at(step, "fault-swallowed:verify_and_apply_proof", format!("a storage operation failed during verify_and_apply_proof but it returned Ok({v})"))),
+            };
+        }
         match res {
             Ok(true) => {}
             Ok(false) => {
@@ -431,7 +446,9 @@ impl RSim {
         self.last_proof = Some(proof);
         // windowed observation
         let touched = c.block.as_ref().map(|b| b.index);
-        self.check_replica(touched, "after-proof")?;
+        if !self.quiet {
+            self.check_replica(touched, "after-proof")?;
+        }
         Ok(ReqOutcome::Accepted)
     }
 
@@ -533,8 +550,15 @@ impl RSim {
         self.r = None;
         match hc::open(&self.rdisk) {
             Ok(Ok(c)) => self.r = Some(c),
+            Ok(Err(_)) if self.rdisk.fault_hit() => return Ok(()),
             Ok(Err(e)) => return Err(fail_at(step, format!("replica-reopen-error:{}", err_kind(&e)), format!("reopening the replica failed: {e}"))),
             Err(p) => return Err(panic_failure(&format!("session step {step}: reopening the replica"), &p)),
+        }
+        if self.rdisk.fault_hit() {
+            return Err(fail_at(step, "fault-swallowed:open", "a storage operation failed while reopening the replica but open returned Ok"));
+        }
+        if self.quiet {
+            return Ok(());
         }
         self.check_replica(None, "after-reopen")
     }
@@ -589,12 +613,19 @@ impl RSim {
         let r = self.replica();
         match catch(|| block_on(r.clear(i, i + 1))) {
             Ok(Ok(())) => {}
+            Ok(Err(_)) if self.rdisk.fault_hit() => return Ok(()),
             Ok(Err(e)) => return Err(fail_at(step, format!("replica-clear-error:{}", err_kind(&e)), format!("replica clear({i},{}) failed: {e}", i + 1))),
             Err(p) => return Err(panic_failure(&format!("session step {step}: replica clear({i})"), &p)),
+        }
+        if self.rdisk.fault_hit() {
+            return Err(fail_at(step, "fault-swallowed:clear", "a storage operation failed during the replica's clear but it returned Ok"));
         }
         self.rm.held.remove(&i);
         self.r_journal_tick();
         local.class("replica_clear");
+        if self.quiet {
+            return Ok(());
+        }
         self.check_replica(Some(i), "after-replica-clear")
     }
 
